@@ -231,7 +231,9 @@ def check_c13(run):
     # (waiters, background thread, pre-emption bound, statement-steps, deadlock query?)
     configs = [(1, True, 1, 60, True), (2, False, 1, 40, False)]
     if thorough:
-        configs = [(1, True, None, 60, True), (2, False, 2, 60, True)]
+        # (the 2-waiter deadlock query at 60 steps / 2 pre-emptions does not finish within 20 min: the lost-wake-up clause of the
+        # safety query covers the 2-waiter "nobody will notify" states, the deadlock query stays with the 1-waiter configuration)
+        configs = [(1, True, None, 60, True), (2, False, 2, 50, False)]
 
     def mk(nw, bg, mp, K, with_deadlock):
         def ob(o):
